@@ -44,4 +44,84 @@ mod verif_witness_status {
             assert_eq!(r.err().flatten().map(|s| s.code()), want, "HTTP {}", sc);
         }
     }
+
+    // ---- errors travelling up the stack as Box<dyn Error> (unit errmap: C09 / C14 / C04 / C02) ----
+    #[derive(Debug)]
+    struct Wrap(Box<dyn Error + Send + Sync>);
+    impl fmt::Display for Wrap {
+        fn fmt(&self, f: &mut fmt::Formatter<'_>) -> fmt::Result {
+            write!(f, "wrap")
+        }
+    }
+    impl Error for Wrap {
+        fn source(&self) -> Option<&(dyn Error + 'static)> {
+            Some(&*self.0)
+        }
+    }
+    fn wrapped(mut e: Box<dyn Error + Send + Sync>, depth: usize) -> Box<dyn Error + Send + Sync> {
+        for _ in 0..depth {
+            e = Box::new(Wrap(e));
+        }
+        e
+    }
+
+    #[test]
+    fn errors_in_a_cause_chain_mean_what_the_properties_say() {
+        for depth in 0..5 {
+            // the deadline error: CANCELLED "Timeout expired"
+            let s = Status::from_error(wrapped(Box::new(TimeoutExpired(())), depth));
+            assert_eq!((s.code(), s.message()), (Code::Cancelled, "Timeout expired"), "timeout at depth {depth}");
+            let s = Status::try_from_error(wrapped(Box::new(TimeoutExpired(())), depth)).expect("recognised");
+            assert_eq!((s.code(), s.message()), (Code::Cancelled, "Timeout expired"));
+            // no connection can be made: UNAVAILABLE
+            let s = Status::from_error(wrapped(Box::new(ConnectError("refused".into())), depth));
+            assert_eq!(s.code(), Code::Unavailable, "connect error at depth {depth}");
+            // a status raised below comes back as itself
+            let mut md = MetadataMap::new();
+            md.insert("x-k", "v".parse().unwrap());
+            let orig = Status::with_details_and_metadata(Code::FailedPrecondition, "why", Bytes::from_static(b"\x01\x02"), md);
+            let s = Status::from_error(wrapped(Box::new(orig), depth));
+            assert_eq!((s.code(), s.message(), s.details()), (Code::FailedPrecondition, "why", &b"\x01\x02"[..]), "status at depth {depth}");
+            assert_eq!(s.metadata().get("x-k").unwrap(), "v");
+            // the first recognisable error decides: a timeout above a status
+            let s = Status::from_error(wrapped(Box::new(Wrap(Box::new(Status::not_found("below")))), 0));
+            assert_eq!(s.code(), Code::NotFound);
+            let inner: Box<dyn Error + Send + Sync> = Box::new(ConnectError(Box::new(Status::not_found("below"))));
+            assert_eq!(Status::from_error(wrapped(inner, depth)).code(), Code::Unavailable, "the connect error is met first");
+            // nothing recognisable: handed back / UNKNOWN
+            assert!(Status::try_from_error(wrapped("opaque".into(), depth)).is_err());
+            assert_eq!(Status::from_error(wrapped("opaque".into(), depth)).code(), Code::Unknown);
+        }
+        // a reset stream at the top level is mapped by the h2 table
+        for (reason, code) in [(h2::Reason::CANCEL, Code::Cancelled), (h2::Reason::REFUSED_STREAM, Code::Unavailable), (h2::Reason::ENHANCE_YOUR_CALM, Code::ResourceExhausted),
+                               (h2::Reason::INADEQUATE_SECURITY, Code::PermissionDenied), (h2::Reason::PROTOCOL_ERROR, Code::Internal), (h2::Reason::NO_ERROR, Code::Internal)] {
+            assert_eq!(Status::from_error(Box::new(h2::Error::from(reason))).code(), code, "{reason:?}");
+        }
+    }
+
+    #[tokio::test]
+    async fn a_recognised_error_leaves_the_stack_as_a_trailers_only_response() {
+        use crate::service::RecoverErrorLayer;
+        use tower::{Layer, ServiceExt};
+        let inner = tower::service_fn(|which: u8| async move {
+            match which {
+                0 => Err::<http::Response<()>, crate::BoxError>(Box::new(TimeoutExpired(()))),
+                1 => Err(Box::new(Wrap(Box::new(Status::permission_denied("no")))) as crate::BoxError),
+                2 => Err("opaque".into()),
+                _ => Ok(http::Response::builder().status(200).header("x-h", "1").body(()).unwrap()),
+            }
+        });
+        let svc = RecoverErrorLayer::new().layer(inner);
+        let res = svc.clone().oneshot(0).await.expect("recovered");
+        assert_eq!(res.status(), http::StatusCode::OK);
+        let st = Status::from_header_map(res.headers()).unwrap();
+        assert_eq!((st.code(), st.message()), (Code::Cancelled, "Timeout expired"));
+        assert_eq!(res.headers().get("content-type").unwrap(), "application/grpc");
+        let res = svc.clone().oneshot(1).await.expect("recovered");
+        let st = Status::from_header_map(res.headers()).unwrap();
+        assert_eq!((st.code(), st.message()), (Code::PermissionDenied, "no"));
+        assert!(svc.clone().oneshot(2).await.is_err(), "an unrecognised error is passed on");
+        let res = svc.clone().oneshot(3).await.unwrap();
+        assert_eq!(res.headers().get("x-h").unwrap(), "1");
+    }
 }
